@@ -91,11 +91,19 @@ Proof. unfold concat_payload. rewrite map_app, concat_app. reflexivity. Qed.
 Lemma map_fst_tag normal last l : map fst (map (tag normal last) l) = map fst l.
 Proof. rewrite map_map. reflexivity. Qed.
 
-Lemma fragment_ok (data : bytes) (m normal last : N) : 7 <= m ->
-  fragment data m normal last = Ok (map (tag normal last) (chunks (m - 6) data)).
+Definition legal_max (m : N) : Prop := m = 0 \/ 7 <= m.
+
+Lemma eff_max_legal (m : N) : legal_max m -> 7 <= eff_max m.
+Proof. unfold eff_max. intros [->|H]; [cbn; lia|]. destruct (N.eqb_spec m 0); lia. Qed.
+
+Lemma eff_max_id (m : N) : 7 <= m -> eff_max m = m.
+Proof. unfold eff_max. intros H. destruct (N.eqb_spec m 0); [lia|reflexivity]. Qed.
+
+Lemma fragment_ok (data : bytes) (m normal last : N) : legal_max m ->
+  fragment data m normal last = Ok (map (tag normal last) (chunks (eff_max m - 6) data)).
 Proof.
-  intros Hm. unfold fragment.
-  destruct (N.eqb_spec m 6); [lia|]. destruct (N.ltb_spec m 6); [lia|]. reflexivity.
+  intros Hm. apply eff_max_legal in Hm. unfold fragment. cbv zeta.
+  destruct (N.eqb_spec (eff_max m) 6); [lia|]. destruct (N.ltb_spec (eff_max m) 6); [lia|]. reflexivity.
 Qed.
 
 (* what one stream of fragments (command or data) satisfies *)
@@ -152,18 +160,18 @@ Proof.
         rewrite length_drop. simpl length in *. lia.
 Qed.
 
-Lemma fragment_file_eq (contents : bytes) (m normal last : N) : 7 <= m ->
+Lemma fragment_file_eq (contents : bytes) (m normal last : N) : legal_max m ->
   Ok (fragment_file contents m normal last) = fragment contents m normal last.
 Proof.
-  intros Hm. rewrite fragment_ok by exact Hm. unfold fragment_file, chunks.
+  intros Hm. rewrite fragment_ok by exact Hm. apply eff_max_legal in Hm. unfold fragment_file, chunks.
   rewrite frag_file_eq_chunks; [reflexivity|lia|lia].
 Qed.
 
 (* ---- the whole message ------------------------------------------------ *)
-Lemma dimse_encode_ok (cmd data : bytes) (pc m : N) : 7 <= m ->
+Lemma dimse_encode_ok (cmd data : bytes) (pc m : N) : legal_max m ->
   dimse_encode cmd data pc m =
-    Ok (mk_frags pc (map (tag 1 3) (chunks (m - 6) cmd)) ++
-        mk_frags pc (map (tag 0 2) (chunks (m - 6) data))).
+    Ok (mk_frags pc (map (tag 1 3) (chunks (eff_max m - 6) cmd)) ++
+        mk_frags pc (map (tag 0 2) (chunks (eff_max m - 6) data))).
 Proof.
   intros Hm. unfold dimse_encode. rewrite fragment_ok by exact Hm. cbn [bind].
   destruct data as [|d ds].
